@@ -17,6 +17,11 @@ Definition loads_clean (content : bytes) : bool := match lf_errors (read_layerfi
    path the layer had before a rename), or a complete rewrite -- it loads without error, has
    the same imports and exports in the same order as the configuration it replaces, and the
    base line the command intends *)
+(* "layerconfig" (doc/layercake_layerconfig.adoc: "the layerconfig file in each layer directory")
+   is written out in this predicate, not taken from the regenerated Gen/Consts.v: after a change
+   of defaults.LayerconfigFile the predicate still looks at the documented name.  (layer_named /
+   layers_on_disk below are the model's reader and do use D_LayerconfigFile; Properties/C11.v
+   C11_constants_pinned compares it with the literal.) *)
 Definition complete_version (c : cfgT) (f : fsT) (cmd : command) (p x : bytes) : bool :=
   let olds : list bytes :=                         (* contents it may legitimately derive from *)
     flat_map (fun e => match snd e with
